@@ -214,8 +214,13 @@ func (fr *frame) oblige1(kind, label string, guard, goal string, pos token.Pos, 
 	if e.rootSpec != nil && e.rootSpec.Options["noimplicit"] != "" {
 		switch kind {
 		case "bounds", "divzero", "makeslice", "nilmap", "typeassert", "overflow", "panic", "floatconv", "nil":
-			// this function is under contract for its explicit clauses only; listed in evidence
+			// this function is under contract for its explicit clauses only; listed in evidence. A failed run-time check
+			// panics, so execution continues past it only if it held: that much is assumed (not for the arithmetic
+			// obligations, which do not stop execution).
 			e.skippedImplicit++
+			if kind != "overflow" && kind != "floatconv" {
+				e.assume(implies(guard, goal))
+			}
 			return &Obligation{Name: "skipped", Kind: kind, enc: e}
 		}
 	}
